@@ -61,3 +61,60 @@ theorem outcome_mode_honest (env : Env) (cfg : Cfg) (σ : Sched) (hσ : σ.IsSch
               subst hv; exact hfresh
 
 end DSV.Props.C15
+
+namespace DSV.Props.C15
+open DSV DSV.LLO
+
+/-- **what a report publishes**: the values of a channel report are, position by position, the outcome's
+    aggregates for the (stream, aggregator) pairs of the channel's definition — nothing is looked up by stream id
+    alone, nothing is taken from another aggregator of the same stream -/
+theorem report_values_are_outcome_aggregates (cfg : Cfg) (σ : Sched) (encodes : Report → Nat → Bool) (seqNr : Nat)
+    (o : Outcome) (rep : Report) (fmt : Nat) (stage : String)
+    (h : ReportOut.channel rep fmt stage ∈ reports cfg σ encodes seqNr o) :
+    ∃ cd, o.defs.get? rep.channelID = some cd ∧
+      rep.values = cd.streams.map (fun s => o.aggs.get? (s.sid, s.agg)) := by
+  unfold reports at h
+  split at h
+  · cases h
+  · simp only [List.mem_append] at h
+    rcases h with h | h
+    · split at h
+      · simp at h
+      · cases h
+    · simp only [List.mem_filterMap] at h
+      obtain ⟨cid, _, hrep⟩ := h
+      unfold channelReport at hrep
+      split at hrep
+      · cases hrep
+      · rename_i cd hcd
+        simp only at hrep
+        split at hrep
+        · cases hrep
+          exact ⟨cd, hcd, rfl⟩
+        · cases hrep
+
+/-- **the mode value a report publishes was agreed**: if a report of the round's outcome carries, at the
+    position of a (stream, mode) pair of its channel, a value that is not the previous outcome's timestamped
+    value carried forward, then at least `f+1` contributing observations of the round reported exactly that
+    value (byte-identical, of the most common type) -/
+theorem published_mode_value_honest (env : Env) (cfg : Cfg) (σ : Sched) (hσ : σ.IsSched) (n : Nat) (prev o : Outcome)
+    (obs : List Obs) (hvals : ∀ x ∈ obs, GoMap.WF x.values) (h : outcome env cfg σ n prev obs = .ok o)
+    (encodes : Report → Nat → Bool) (seqNr : Nat) (rep : Report) (fmt : Nat) (stage : String)
+    (hrep : ReportOut.channel rep fmt stage ∈ reports cfg σ encodes seqNr o)
+    (i : Nat) (cd : ChanDef) (hcd : o.defs.get? rep.channelID = some cd) (sid : Nat)
+    (hs : cd.streams[i]? = some ⟨sid, aggMode⟩) (v : SV) (hv : rep.values[i]? = some (some v)) :
+    copiedTsv prev (sid, aggMode) = some v ∨
+    (some v ∈ (counted env obs).filterMap (obsValue sid) ∧
+     v.type = (mostCommonType ((counted env obs).filterMap (obsValue sid))).1 ∧
+     cfg.f + 1 ≤ ((counted env obs).filterMap (obsValue sid)).countP
+       (isVote (mostCommonType ((counted env obs).filterMap (obsValue sid))).1 (marshalSV v))) := by
+  obtain ⟨cd', hcd', hvals'⟩ := report_values_are_outcome_aggregates cfg σ encodes seqNr o rep fmt stage hrep
+  rw [hcd] at hcd'
+  cases hcd'
+  rw [hvals', List.getElem?_map, hs] at hv
+  simp only [Option.map_some, Option.some.injEq] at hv
+  have href : ∃ e ∈ o.defs, (⟨sid, aggMode⟩ : Stream) ∈ e.2.streams :=
+    ⟨(rep.channelID, cd), GoMap.mem_of_get?_eq_some o.defs _ _ hcd, List.mem_of_getElem? hs⟩
+  exact outcome_mode_honest env cfg σ hσ n prev o obs hvals h sid href v hv
+
+end DSV.Props.C15
